@@ -484,3 +484,51 @@ Proof.
     + exfalso. lra.
     + eexists. reflexivity.
 Qed.
+
+(* ---- ... and such a system is never refused: strict dominance with the margin, standard model ----
+   [dominant_su u t] : (|sub_{i-1}| + |sup_i|)(1+u) < |main_i|(1-u) for every row.  Then solve answers (no pivot,
+   as computed with rounding, can vanish) and the answer is backward stable as above. *)
+Theorem thomas_dominant_solved_and_stable : forall (u : R), (0 <= u <= 1 / 64)%R ->
+  forall (fadd fsub fmul fdiv : R -> R -> R),
+  (forall x y, exists d, (Rabs d <= u)%R /\ fsub x y = ((x - y) * (1 + d))%R) ->
+  (forall x y, exists d, (Rabs d <= u)%R /\ fmul x y = (x * y * (1 + d))%R) ->
+  (forall x y, y <> 0%R -> exists d, (Rabs d <= u)%R /\ fdiv x y = (x / y * (1 + d))%R) ->
+  forall (t : tridiag (ARnd fadd fsub fmul fdiv)) (r : list R),
+  wfT t -> (1 <= tn t)%nat -> length r = tn t -> dominant_su u fadd fsub fmul fdiv t ->
+  exists x, tsolve t r = Ok x /\ length x = tn t /\
+  forall i, (i < tn t)%nat -> exists da db dc,
+    (Rabs da <= 3 * u * Rabs (nth i (0 :: tsub t) 0) /\
+     Rabs db <= 5 * u * Rabs (nth i (tmain t) 0) + 9 * u * Rabs (nth i (0 :: tsub t) 0) /\
+     Rabs dc <= 5 * u * Rabs (nth i (tsup t) 0) /\
+     (nth i (0 :: tsub t) 0 + da) * nth i (0 :: x) 0 + (nth i (tmain t) 0 + db) * nth i x 0
+     + (nth i (tsup t) 0 + dc) * nth (i + 1) x 0 = nth i r 0)%R.
+Proof. intros u Hu fadd fsub fmul fdiv Hs Hm Hd t r. exact (thomas_dominant_solved_and_stable_lemma u Hu fadd fsub fmul fdiv Hs Hm Hd t r). Qed.
+Check thomas_dominant_solved_and_stable : forall (u : R), (0 <= u <= 1 / 64)%R ->
+  forall (fadd fsub fmul fdiv : R -> R -> R),
+  (forall x y, exists d, (Rabs d <= u)%R /\ fsub x y = ((x - y) * (1 + d))%R) ->
+  (forall x y, exists d, (Rabs d <= u)%R /\ fmul x y = (x * y * (1 + d))%R) ->
+  (forall x y, y <> 0%R -> exists d, (Rabs d <= u)%R /\ fdiv x y = (x / y * (1 + d))%R) ->
+  forall (t : tridiag (ARnd fadd fsub fmul fdiv)) (r : list R),
+  wfT t -> (1 <= tn t)%nat -> length r = tn t -> dominant_su u fadd fsub fmul fdiv t ->
+  exists x, tsolve t r = Ok x /\ length x = tn t /\
+  forall i, (i < tn t)%nat -> exists da db dc,
+    (Rabs da <= 3 * u * Rabs (nth i (0 :: tsub t) 0) /\
+     Rabs db <= 5 * u * Rabs (nth i (tmain t) 0) + 9 * u * Rabs (nth i (0 :: tsub t) 0) /\
+     Rabs dc <= 5 * u * Rabs (nth i (tsup t) 0) /\
+     (nth i (0 :: tsub t) 0 + da) * nth i (0 :: x) 0 + (nth i (tmain t) 0 + db) * nth i x 0
+     + (nth i (tsup t) 0 + dc) * nth (i + 1) x 0 = nth i r 0)%R.
+Print Assumptions thomas_dominant_solved_and_stable.
+Print Assumptions tridiag_views.   (* separator, as above *)
+Example thomas_dominant_solved_and_stable_nonvacuous :    (* the 2x2 system of the previous example is strictly dominant with the margin *)
+  let u := (1 / 64)%R in
+  let fsub := fun x y => ((x - y) * (1 + 1 / 64))%R in
+  let fmul := fun x y => (x * y * (1 + - (1 / 128)))%R in
+  let fdiv := fun x y => (x / y)%R in
+  let t := @mkT (ARnd Rplus fsub fmul fdiv) [1%R] [4%R; 4%R] [1%R] 2 in
+  wfT t /\ (1 <= tn t)%nat /\ length [1%R; 2%R] = tn t /\ dominant_su u Rplus fsub fmul fdiv t.
+Proof.
+  cbv zeta. split; [unfold wfT; cbn; auto|]. split; [cbn; auto|]. split; [reflexivity|].
+  intros i Hi. cbn [tn] in Hi.
+  destruct i as [|[|i]]; [| |exfalso; apply (Nat.lt_irrefl 2); apply (Nat.le_lt_trans _ (S (S i))); [apply le_n_S, le_n_S, Nat.le_0_l|exact Hi]];
+    cbn [nth tmain tsub tsup]; unfold Rabs; repeat destruct Rcase_abs; lra.
+Qed.
